@@ -401,10 +401,17 @@ void sharp_case(vt::Rng& rng, int64_t icase, bool small_bundle = false)
     // gap recomputed from the driver's own objective (f* = 0 at x*)
     const auto gap   = function.vgrad(state.x());
     const auto dist  = (state.x() - xstar).lpNorm<2>();
-    const auto bound = id == "ellipsoid" ? 10.0 * eps : 2.0 * eps * std::sqrt(static_cast<double>(n)) * (1.0 + dist);
+    // (+ the rounding of the evaluations themselves: with a tiny proximity parameter the trial points lie 1e5..1e7 away, the linearisation
+    // errors are differences of values of that size and the certificate cannot be more accurate than a few ulp of the largest |f| seen)
+    double maxf = 0.0;
+    for (const auto& ev : counting.evals())
+    {
+        maxf = std::isfinite(ev.f) ? std::max(maxf, std::fabs(ev.f)) : maxf;
+    }
+    const auto bound = (id == "ellipsoid" ? 10.0 * eps : 2.0 * eps * std::sqrt(static_cast<double>(n)) * (1.0 + dist)) + 1e-13 * maxf;
     if (std::getenv("VERIF_DEBUG") != nullptr && state.status() == solver_status::converged && !(gap <= bound))
     {
-        std::fprintf(stderr, "case %lld %s n=%d gap=%.6g bound=%.6g dist=%.6g eps=%.6g evals=%lld\n", static_cast<long long>(icase), id.c_str(), static_cast<int>(n), gap, bound, dist, eps,
+        std::fprintf(stderr, "case %lld %s n=%d gap=%.6g bound=%.6g dist=%.6g eps=%.6g maxf=%.6g evals=%lld\n", static_cast<long long>(icase), id.c_str(), static_cast<int>(n), gap, bound, dist, eps, maxf,
                      static_cast<long long>(counting.evals().size()));
         for (const auto& p : solver->parameters())
         {
@@ -425,7 +432,7 @@ void sharp_case(vt::Rng& rng, int64_t icase, bool small_bundle = false)
         "shaken", shaken).i("pairs", pairs));
 }
 
-// the recorded finding (known_findings.json, C03): with epsilon <= 5e-8 and a start very close to the minimiser the ellipsoid method
+// the recorded finding (known_findings.json, C03): with epsilon <= 1e-7 and a start very close to the minimiser the ellipsoid method
 // can report `converged` with a gap above 10 epsilon (its matrix degenerates numerically); one fixed instance, run in every check
 void known_ellipsoid_case(int64_t icase)
 {
